@@ -21,3 +21,15 @@ TWINS = [
     T("rename-local", S, "    position = buffer.tell()\n    buffer.seek(0)\n    encoded = base64.b64encode(buffer.read()).decode(\"utf-8\")\n    buffer.seek(position)\n    return encoded", "    pos = buffer.tell()\n    buffer.seek(0)\n    out = base64.b64encode(buffer.read()).decode(\"utf-8\")\n    buffer.seek(pos)\n    return out"),
     T("optional-spelling", D, "    styles: List[RtfStyle] = field(default_factory=list)", "    styles: list[RtfStyle] = field(default_factory=list)"),
 ]
+
+# --- seeded changes kept under /verif/seeded (sub-agents saw only the property text); each must be reported by the named rule
+import os as _os
+from sa.selftest.harness import P as _P
+_SEEDS = _os.path.join(_os.path.dirname(_os.path.dirname(_os.path.dirname(_os.path.abspath(__file__)))), "seeded")
+SEEDED = [
+    ("C05-1", "C05-POS"),
+    ("C05-3", "C05-SIB"),
+    ("C05-4", "C05-ANY"),
+    ("C05-5", "C05-SIB"),
+]
+MUTANTS = list(MUTANTS) + [_P("seed-" + sid, _os.path.join(_SEEDS, sid, "patch.diff"), rule) for sid, rule in SEEDED if _os.path.exists(_os.path.join(_SEEDS, sid, "patch.diff"))]
